@@ -356,7 +356,7 @@ func (jenny RawTypes) genDefaultForType(t ast.Type, value any) string {
 func (jenny RawTypes) formatReferenceDefaults(ref ast.Type, value any) string {
 	// Enums
 	if _, ok := value.(map[string]interface{}); !ok {
-		jenny.typeFormatter.packageMapper(ref.AsRef().ReferredPkg, ref.AsRef().ReferredType)
+		jenny.typeFormatter.packageMapper(ref.AsRef().ReferredPkg, formatObjectName(ref.AsRef().ReferredType))
 		return jenny.typeFormatter.formatRefType(ref, value)
 	}
 
@@ -378,11 +378,11 @@ func (jenny RawTypes) formatReferenceDefaults(ref ast.Type, value any) string {
 		}
 	}
 
-	class := fmt.Sprintf("%s.%s", ref.AsRef().ReferredPkg, ref.AsRef().ReferredType)
+	class := fmt.Sprintf("%s.%s", ref.AsRef().ReferredPkg, formatObjectName(ref.AsRef().ReferredType))
 	if ref.AsRef().ReferredPkg == obj.SelfRef.ReferredPkg {
-		class = ref.AsRef().ReferredType
+		class = formatObjectName(ref.AsRef().ReferredType)
 	}
 
-	jenny.typeFormatter.packageMapper(ref.AsRef().ReferredPkg, ref.AsRef().ReferredType)
+	jenny.typeFormatter.packageMapper(ref.AsRef().ReferredPkg, formatObjectName(ref.AsRef().ReferredType))
 	return fmt.Sprintf("new %s(%s)", class, strings.Join(args, ", "))
 }
